@@ -283,6 +283,11 @@ def run(tier):
                 sample = {"lag": p, "delivered": cont}
     bound = 2
     st = explore.explore(Race("line"), race_params(tier), bound)
+    rst = explore.explore(fabric.Restart(PID, "line"), fabric.restart_params(tier), 2)
+    st.merge(rst)
+    restart_cov = {"executions": rst.executions, "distinct_outcomes": len(rst.outcomes), "verdicts": rst.verdicts,
+                   "what": "1-4 publications (priority 1 / default) made while the fabric runs, then stop(), optional publications while "
+                           "stopped, start(); every schedule of the caller against the delivery threads with <= 1-2 preemptions"}
     ix = None
     if tier != "quick":
         ix = explore.extra(st, explore.hybrid(Race("instr")), [dict(p, bound=2.015) for p in race_params(tier)[:3]],
@@ -291,6 +296,7 @@ def run(tier):
     if ix:
         res.coverage["instruction_extra"] = ix
     cov = res.coverage
+    cov["restart_part"] = restart_cov
     cov["lag_part"] = {"publish_sequences": n_lag, "max_length": N, "distinct_delivery_patterns": len(distinct)}
     cov["states"] = len(distinct) + max(1, len(st.fps))
     cov["transitions"] = n_lag + st.steps
@@ -319,7 +325,7 @@ def replay(w):
         for key, what in lag_judge(w["lag"], ex):
             res.add(Violation(key, what, w))
         return res
-    ex, v = explore.replay(Race("line"), w)
+    ex, v = explore.replay(fabric.Restart(PID, "line") if str(w.get("harness", "")).endswith("-restart") else Race("line"), w)
     print(ex.verdict, ex.obs)
     for key, what in v:
         res.add(Violation(key, what, w))
